@@ -88,6 +88,18 @@ fn main() {
                     _ => out.fail(&case, "write-differs", &format!("query {}: {} and the string form disagree on success ({:?} / {:?})", qi, label, got.as_ref().map(|_| "ok"), want.as_ref().map(|_| "ok"))),
                 }
             }
+            // a writer that fails after k bytes: an error, not a panic
+            if let Ok(Ok(sr)) = guard(|| xot.to_string(node)) {
+                for k in [0usize, 1, sr.len() / 2, sr.len().saturating_sub(1)] {
+                    if k >= sr.len() { continue; }
+                    let mut fw = FailingWriter { left: k };
+                    match guard(|| xot.write(node, &mut fw)) {
+                        Ok(Err(_)) => { stats.bump("failing_writer_reported"); }
+                        Ok(Ok(())) => out.fail(&case, "failing-writer", &format!("query {}: write() into a writer that fails after {} bytes returned Ok", qi, k)),
+                        Err(()) => out.fail(&case, "failing-writer", &format!("query {}: write() into a writer that fails after {} bytes panicked", qi, k)),
+                    }
+                }
+            }
             // Write-based entry point emits the same bytes
             if p.cdata.is_empty() && !p.unescaped_gt {
                 let mut buf: Vec<u8> = vec![];
